@@ -21,6 +21,9 @@ type rtObs struct {
 }
 
 func (e *rtEnv) observe() rtObs {
+	if e.hung != "" {
+		return rtObs{scrapeOK: true}
+	}
 	txt, err := e.scrape()
 	er := ""
 	if err != nil {
@@ -170,6 +173,9 @@ func c14Run(r *runCtx, id string, f []string) {
 	final := env.observe()
 	obs = append(obs, fmt.Sprintf("H[%s] C[%s] S[%s]", final.handles, final.counters, strings.Join(final.store, " ")))
 	r.obs(id, "%s", strings.Join(obs, " || "))
+	if env.hung != "" {
+		fails = append([]failure{{"load-hangs", env.hung}}, fails...)
+	}
 	if len(fails) == 0 {
 		r.ok(id)
 	} else {
